@@ -1,9 +1,75 @@
 """C12 — each request is answered at most once, to the right requester
-(mptcore/message/message_id.c, mptcore/event/reply_deferrable.c, reply_set.c, context_reply.c)."""
+(mptcore/message/message_id.c, mptcore/event/reply_deferrable.c, reply_set.c, context_reply.c; their mptio users
+mptio/connection/connection_dispatch.c, mptio/output_remote.c, mptio/stream/stream_sync.c, stream_reply.c, stream_input.c)."""
 import itertools
 from vcheck import DiffProperty
 
-ARITY = {"req": 5, "conv": 1, "arm": 1, "armz": 1, "reply": 1, "creply": 2, "defer": 0, "hreply": 2, "ref": 0, "unref": 0}
+ARITY = {"req": 5, "conv": 1, "arm": 1, "armz": 1, "reply": 1, "creply": 2, "defer": 0, "hreply": 2, "ref": 0, "unref": 0,
+         # connection cases (harness/c12_conn.c)
+         "tx": 1, "dp": 2, "dp0": 0, "hr": 2, "aw": 1, "ps": 1, "pe": 0, "sy": 0, "cl": 0}
+
+# ---------------------------------------------------------------------------------------------
+# Patches proposed under /verif/docs/C12_*.diff.  The connection model (coq/C12/ConnModel.v) describes
+# the code WITH these patches.  Flip an entry to True once the patch is committed in /repo: the
+# generator then emits the cases that depend on it.  Nothing else (no environment variable, no
+# probing of /repo) decides this.
+COMMITTED = {
+    "dispatch_sw": False,         # C12_dispatch_sw.diff          connection_dispatch.c: struct _streamWrapper never filled
+    "answer_once": False,         # C12_answer_once.diff          connection_dispatch.c, output_remote.c: answered request stays registered
+    "dgram_nocmd_reply": False,   # C12_dgram_nocmd_reply.diff    connection_dispatch.c: discard branch answers without reply mark
+    "next_size": False,           # C12_next_size.diff            output_remote.c: remoteNext compares the address length with the id length
+    "stream_sync": False,         # C12_stream_sync.diff          stream_sync.c: returns on success, never consumes, short id unchecked
+    "dgram_recv_slice": False,    # C12_dgram_recv_slice.diff     outdata_recv.c: mpt_array_slice(off, len) arguments swapped
+    "dgram_reply_long": False,    # C12_dgram_reply_long.diff     outdata_reply.c: reply longer than 256 bytes copies from NULL
+    "dgram_push_cid": False,      # C12_dgram_push_cid.diff       connection_push.c: datagram backend never clears con->cid
+}
+
+
+def con_needs(case):
+    """patches a connection case depends on (its behaviour differs between /repo as is and the patched code)"""
+    t = case.split()
+    if t[0] != "con":
+        return set()
+    dg, idl = t[1] == "d", int(t[2])
+    need = set()
+    ops, i = [], 3
+    while i < len(t):
+        n = ARITY.get(t[i], 0)
+        ops.append(t[i:i + n + 1])
+        i += n + 1
+    seen_tx = marked = False
+    for o in ops:
+        if o[0] == "tx":
+            seen_tx = True
+            if idl and o[1] != "-" and int(o[1][:2], 16) & 0x80:
+                marked = True
+        elif o[0] in ("dp", "dp0"):
+            if not seen_tx:
+                continue        # nothing to receive: the dispatcher returns before it looks at a message
+            if dg:
+                need |= {"dgram_recv_slice", "next_size"}
+                if o[0] == "dp0":
+                    need.add("dgram_nocmd_reply")
+                for a in (o[1].split(",") if o[0] == "dp" else []):
+                    if a.startswith("r") and a not in ("rnull", "r-") and len(a) // 2 > 256 - idl:
+                        need.add("dgram_reply_long")
+            else:
+                need.add("dispatch_sw")
+            if marked:
+                need.add("answer_once")
+        elif o[0] == "sy" and seen_tx:
+            need.add("dgram_recv_slice" if dg else "stream_sync")
+            if marked:
+                need.add("answer_once")
+        elif o[0] in ("aw", "ps") and dg:
+            need.add("dgram_push_cid")
+        elif o[0] == "hr" and dg and o[2] not in ("null", "-") and len(o[2]) // 2 > 256 - idl:
+            need.add("dgram_reply_long")
+    return need
+
+
+def con_enabled(case):
+    return all(COMMITTED[k] for k in con_needs(case))
 
 
 def hx(bs):
@@ -29,7 +95,7 @@ class C12(DiffProperty):
     driver = "c12_driver.ml"
     harness_src = "c12_reply.c"
     libs = ["mptcore", "mptio"]
-    rule = ("three case kinds. id2buf: id x header width (ids 0, 2^k-1, 2^k, 2^k+1 for k=1..64, 2^63, 2^64-1 and random; "
+    rule = ("five case kinds. id2buf: id x header width (ids 0, 2^k-1, 2^k, 2^k+1 for k=1..64, 2^63, 2^64-1 and random; "
             "widths 0..9 exhaustively for the boundary ids, 0..12 for random ones), written into an exact-size heap buffer and read "
             "back with buf2id. buf2id: arbitrary byte strings of 0..12 bytes (leading zeros, >8 significant bytes, top bits set). "
             "sin: mptio stream input over a socketpair (id width 0..9, read-only or bidirectional), 1..3 COBS-framed messages "
@@ -37,17 +103,40 @@ class C12(DiffProperty):
             "ctx: a reply context (id width 0..9/16, with/without send handler and target, transport script of accept/reject answers) "
             "+ history over conv/arm/armz/reply/creply/defer/hreply/ref/unref; quick: every history of length<=3 over a 12-letter "
             "alphabet x 3 transport scripts (exhaustive) plus random histories that keep one or two (sometimes more) requests "
-            "outstanding; a case is non-trivial when it is an id case with id != 0 or a history that arms at least one request; "
-            "distinct = distinct case text")
+            "outstanding. con: the object of mpt_output_remote() over a socketpair (datagram backend or COBS stream backend, id width "
+            "0,1,2,3,4,8,9) + history over tx (peer sends request / zero id / answer to an awaited, unknown or unusable id / short "
+            "message), dp (next+dispatch to a handler that replies 0..2 times, defers, or replies 250..700 bytes, and returns a status), "
+            "dp0 (dispatch without handler), hr (reply through a deferred handle, also while an outgoing message is composed and after "
+            "the connection is released), aw / ps..pe (await + push of an outgoing request, in one piece or left open), sy (sync), cl "
+            "(release): 57 hand-written histories (among them the id space of a one-byte header used up and recycled) + 3000 random "
+            "ones (quick); only those whose behaviour does not depend on a patch of docs/C12_*.diff that is not yet committed are run "
+            "(constant COMMITTED in props/c12.py). A case is non-trivial when it is an id case with id != 0, a history that arms at "
+            "least one request, or a connection history; distinct = distinct case text")
     modelled = ("mptcore/message/message_id.c, mptcore/event/reply_set.c, reply_deferrable.c (contextSend/Set/Defer/Unref/Ref/Conv/"
                 "Detach, deferReply, mpt_reply_deferrable), the reply-context branch of context_reply.c and mptcore/misc/refcount.c "
-                "transcribed in coq/C12/ReplyModel.v; the log output of contextSend (mpt_log) and malloc failure are not modelled; "
+                "transcribed in coq/C12/ReplyModel.v; the log output of contextSend (mpt_log) and malloc failure are not modelled. "
+                "coq/C12/ConnModel.v transcribes, WITH the patches docs/C12_*.diff, mptio/connection/connection_dispatch.c (both "
+                "branches of mpt_connection_dispatch, streamWrapper, replyConnection), the parts of mptio/output_remote.c that deal with "
+                "messages (remoteNext for the datagram backend, remoteDispatch, remotePush, remoteSync, remoteAwait, remoteUnref), "
+                "mptio/stream/stream_sync.c, and what they call: connection_await.c, connection_push.c, connection_fini.c, "
+                "mptcore/event/command_reserve.c, command_get.c (wait table incl. the compaction loop); the reply context is not "
+                "modelled a second time: the connection drives the ReplyModel.v operations, the transport answer (sendto result / "
+                "mpt_stream_reply: 0 or BadArgument while a message is composed) is computed from the connection state. Kernel objects are "
+                "abstracted to queues of complete messages; mpt_stream_reply/push/flush/poll, mpt_outdata_* and the COBS codec are executed "
+                "but not modelled (C01/C02/C13); the value returned by next() of the stream backend and the code for 'no message' "
+                "(MissingData or 0) are not compared; the property/conversion/log functions of output_remote.c (remoteConv, remoteProperty, "
+                "remoteSetProperty, remoteLog), a socket address part of datagrams (_smax, never set by the library) and pushes on the "
+                "datagram backend after a receive (input and output share one buffer) are outside the model. "
                 "mptio/stream/stream_input.c (streamMessage/streamReply + stream_reply.c) is modelled at correspondence level "
-                "only (sin_request, no theorem); connection_dispatch.c, output_remote.c and stream_sync.c are neither modelled "
-                "nor exercised")
+                "only (sin_request, no theorem)")
     trusted = ["harness/c12_reply.c: the transport is the harness' send callback (logs rd->val[0..len) and the flattened message, "
                "answers from the script); state is read directly from the structures (reply_deferrable.c is #included), "
                "frees are observed by wrapping malloc/free of that file",
+               "harness/c12_conn.c plays the peer on the other end of the socketpair (own COBS codec), sets con.out._idlen directly (no "
+               "library function does; examples/io/mclient.c does the same), attaches the stream the way mpt_connection_open does, calls "
+               "next(POLLIN) while the descriptor is readable and next(POLLOUT) after operations that write (what the notifier would do), "
+               "reads the reply context, the handles and the wait table straight from the structures (output_remote.c and "
+               "reply_deferrable.c are #included)",
                "malloc is assumed to succeed; the harness fills reply_data.val with 0xee after creation",
                "the caller protocol: a context is used only while the caller holds a reference, a deferred handle only until "
                "its reply() consumed it (other uses are use-after-free, outside the interface)"]
@@ -58,23 +147,43 @@ class C12(DiffProperty):
                   "C12_log_is_accepted_calls, C12_at_most_one_reply, C12_reply_carries_id, C12_later_replies_refused, "
                   "C12_retry_after_reject, C12_released_context_default_reply, C12_released_handle_default_reply, "
                   "C12_arm_preserves_context, C12_history_refines_spec (results, transport calls, open requests and log equal the "
-                  "abstract per-request specification); the model is tied to the code on every run by differential execution "
-                  "(boundary ids x widths, exhaustive short histories, random histories) under ASan/UBSan with allocation tracking")
+                  "abstract per-request specification). For the mptio users (connection_dispatch.c, output_remote.c, stream_sync.c as "
+                  "patched), for every connection history (peer messages, handlers that reply/defer, deferred replies, outgoing requests, "
+                  "sync, release; both backends, any id width): C12_conn_no_fault, C12_conn_at_most_one_reply, C12_conn_refcount (a handle "
+                  "that outlives the connection cannot reach it), C12_conn_request_answered_once (a request dispatched to a handler that "
+                  "does not defer produces exactly one message: its id marked as reply + the handler's first reply or the generic answer; "
+                  "later replies are refused), C12_conn_handle_reply_id (a deferred reply carries the id the handle holds), "
+                  "C12_conn_answer_routing + C12_conn_answered_once + C12_conn_reserve_fresh + C12_conn_wait_ids_distinct (an answer "
+                  "reaches the handler registered under its id and releases it; mpt_command_reserve incl. its compaction loop hands out an "
+                  "id no slot in use has, so the ids a connection waits for are distinct after every history and a second answer finds "
+                  "nobody), C12_conn_refines_spec (the connection over the "
+                  "mechanism = the connection over the abstract specification). The models are tied to the code on every run by "
+                  "differential execution (boundary ids x widths, exhaustive short histories, random histories, connection histories "
+                  "over real sockets) under ASan/UBSan with allocation tracking")
     level_note = ("trusted: Coq kernel; hand transcription of the C files (validated by the correspondence run, not verified); "
-                  "extraction and OCaml driver; harness. Request ids armed into a context are assumed to have the reply-mark bit clear "
-                  "(hypothesis wf_op of the reply theorems; ids with the bit set are never handed to a handler by the dispatchers). "
+                  "extraction and OCaml driver; harnesses. Request ids armed into a context are assumed to have the reply-mark bit clear "
+                  "(hypothesis wf_op of the reply theorems; the dispatchers never hand an id with the bit set to a handler: proved for the "
+                  "connection model, where the arm operation is issued only in the branch without mark). "
                   "A non-final unref of the context detaches the transport (code and specification agree; open requests are then dropped). "
-                  "mpt_log output, malloc failure and the mptio users of the reply context are not covered. "
+                  "The connection model describes /repo WITH the patches docs/C12_*.diff (9 defects found when the files were first executed; "
+                  "replays docs/C12_replay_*.json give VIOLATION on the unpatched tree); until they are committed the generator runs only the "
+                  "connection histories that behave the same with and without them (COMMITTED in props/c12.py). "
+                  "C12_conn_request_answered_once needs the transport to accept (stream: no outgoing message being composed). "
+                  "Kernel, COBS codec and the stream/outdata buffering below the connection are executed, not modelled (C01/C02/C13). "
+                  "mpt_log output and malloc failure are not covered. "
                   "All theorems are closed under the global context (no axioms).")
-    technique = "Coq invariant + refinement proof (reply mechanism -> per-request log) + differential correspondence check"
+    technique = ("Coq invariant + refinement proof (reply mechanism -> per-request log; connection layer parametric in the reply machine, "
+                 "simulation lifted through it) + differential correspondence check with two harnesses")
     assumptions = ["malloc succeeds", "the transport's send callback does not re-enter the reply context",
                    "request ids have the top bit of their first byte clear",
-                   "objects are not used after the caller released them"]
+                   "objects are not used after the caller released them",
+                   "connection cases: the patches docs/C12_*.diff marked True in COMMITTED are present in the tree under test",
+                   "the peer writes complete messages (frames/datagrams); kernel buffers do not fill up"]
 
     # ------------------------------------------------------------------ structure
     def split(self, case):
         t = case.split()
-        if t[0] not in ("ctx", "sin"):
+        if t[0] not in ("ctx", "sin", "con"):
             return t, []
         nh = 5 if t[0] == "ctx" else 3
         hdr, rest = t[:nh], t[nh:]
@@ -86,7 +195,21 @@ class C12(DiffProperty):
             i += n + 1
         return hdr, ops
 
+    _kind = None
+
+    def compare(self, case, it, mt, st):
+        self._kind = case.split(None, 1)[0]
+        return DiffProperty.compare(self, case, it, mt, st)
+
     def project(self, tok):
+        if self._kind == "con":
+            # ret|waiter calls|wire|ctx|handles|wait table: slots of the wait table that are not in use are mechanism detail
+            f = tok.split("|")
+            if len(f) == 6 and ":" in f[5]:
+                cid, ents = f[5].split(":", 1)
+                ents = [e for e in ents.split(",") if e != "-" and not e.endswith("=.")]
+                f[5] = cid + ":" + (",".join(ents) or "-")
+            return "|".join(f)
         if "|" in tok:
             return "|".join(tok.split("|")[:4])
         if tok.startswith("ok:"):
@@ -115,6 +238,17 @@ class C12(DiffProperty):
             yield self.join(hdr, ops[:k] + ops[k + 1:])
         for k in range(1, len(ops)):
             yield self.join(hdr, ops[:k])
+        if hdr[0] == "con":
+            for k, o in enumerate(ops):
+                if o[0] == "dp" and o[1] != "-":
+                    a = o[1].split(",")
+                    for q in range(len(a)):
+                        yield self.join(hdr, ops[:k] + [["dp", ",".join(a[:q] + a[q + 1:]) or "-", o[2]]] + ops[k + 1:])
+                    if o[2] != "0":
+                        yield self.join(hdr, ops[:k] + [["dp", o[1], "0"]] + ops[k + 1:])
+                if o[0] in ("tx", "aw", "ps") and len(o[1]) > 2 * int(hdr[2]) + 2:
+                    yield self.join(hdr, ops[:k] + [[o[0], o[1][:-2]]] + ops[k + 1:])
+            return
         if hdr[0] == "sin":
             for k, o in enumerate(ops):
                 if len(o[1]) > 2 * int(hdr[1]) + 2:
@@ -142,7 +276,7 @@ class C12(DiffProperty):
     def _sig(self, case, diff):
         j, a, b = diff
         hdr, ops = self.split(case)
-        opn = ops[j][0] if hdr[0] == "ctx" and 0 <= j < len(ops) else "tok%d" % j
+        opn = ops[j][0] if hdr[0] in ("ctx", "con") and 0 <= j < len(ops) else "tok%d" % j
         crash = a.startswith("F") or a == "<none>"
         return (hdr[0], opn, crash, a.split("|")[0][:1] == b.split("|")[0][:1])
 
@@ -190,6 +324,39 @@ class C12(DiffProperty):
                 b = bytes.fromhex(hdr[1])
                 if len(b.lstrip(b"\0")) > 8:
                     cl.add("buf2id-over-8-significant")
+            return cl
+        if hdr[0] == "con":
+            dg, il = hdr[1] == "d", int(hdr[2])
+            cl.add("con:datagram" if dg else "con:stream")
+            cl.add("con:idlen=%d" % il)
+            names = [o[0] for o in ops]
+            for n in set(names):
+                cl.add("con:op:" + n)
+            for o in ops:
+                if o[0] == "tx" and il:
+                    b = bytes.fromhex(o[1]) if o[1] != "-" else b""
+                    if len(b) < il:
+                        cl.add("con:short-message")
+                    elif b[0] & 0x80:
+                        cl.add("con:answer")
+                    elif not any(b[:il]):
+                        cl.add("con:zero-id")
+                    else:
+                        cl.add("con:request")
+                if o[0] == "dp":
+                    a = o[1].split(",")
+                    if "d" in a:
+                        cl.add("con:handler-defers")
+                    if sum(1 for x in a if x.startswith("r")) > 1:
+                        cl.add("con:handler-replies-twice")
+                    if o[1] == "-":
+                        cl.add("con:handler-silent")
+            if "cl" in names and "hr" in names[names.index("cl"):]:
+                cl.add("con:handle-after-close")
+            if "ps" in names and "hr" in names[names.index("ps"):]:
+                cl.add("con:reply-while-composing")
+            for k in con_needs(case):
+                cl.add("con:needs:" + k)
             return cl
         if hdr[0] == "sin":
             cl.add("stream-input")
@@ -366,6 +533,188 @@ class C12(DiffProperty):
                 ops.append(["conv", str(rng.choice([0, 8, 130, 1, 129, 255]))])
         return " ".join(["ctx", str(mx), str(send), str(ptr), ",".join(map(str, sc)) or "-"] + [t for o in ops for t in o])
 
+    def corpus(self):
+        # connection regressions that depend on a patch not yet committed stay out (see COMMITTED)
+        return [c for c in DiffProperty.corpus(self) if con_enabled(c)]
+
+    # ------------------------------------------------------------------ two harnesses
+    def evaluate(self, cases, workdir, tagsuffix=""):
+        """reply context / ids / stream input: harness/c12_reply.c; connection cases: harness/c12_conn.c"""
+        import vcheck
+        h1 = vcheck.build_harness(self.harness_src, self.libs, extra=self.extra_harness_flags)
+        h2 = vcheck.build_harness("c12_conn.c", self.libs)
+        mx = vcheck.build_model(self.mlname, self.driver, self.extract_vo)
+        ided = ["c%d %s" % (i, c) for i, c in enumerate(cases)]
+        iscon = lambda l: l.split(None, 2)[1] == "con"
+        I, errs = {}, []
+        for exe, sub, tag in ((h1, [l for l in ided if not iscon(l)], "impl"), (h2, [l for l in ided if iscon(l)], "implcon")):
+            if sub:
+                o, e = vcheck.run_cases(exe, sub, workdir, tag + tagsuffix, env=self.harness_env, args=self.harness_args)
+                I.update(o.get("I", {}))
+                errs += e
+        M, e2 = vcheck.run_cases(mx, ided, workdir, "model" + tagsuffix)
+        res = []
+        for i, c in enumerate(cases):
+            k = "c%d" % i
+            res.append(self.compare(c, I.get(k), M.get("M", {}).get(k), M.get("S", {}).get(k)))
+        return res, errs + e2
+
+    # ------------------------------------------------------------------ connection cases
+    def gen_con(self, rng, big=False):
+        dg = rng.random() < 0.4
+        il = rng.choice([0, 1, 1, 2, 2, 2, 3, 4, 8, 9])
+        maxid = {0: 0, 1: 127, 2: 32767, 3: 8388607}.get(min(il, 4), 2147483647)
+        ops = []
+        out_ids = []        # ids of outgoing requests (as awaited), newest last
+        nxt = 1
+        active = False      # outgoing message open
+        recvd = False       # datagram: something was received (no pushes afterwards: shared buffer)
+        pending = 0         # messages written by the peer, not dispatched
+        nh = 0
+        closed = False
+
+        def idbytes(v):
+            return list(v.to_bytes(il, "big")) if il else []
+
+        def payload(mx=9):
+            return [rng.choice([0, 0x41, rng.randrange(256)]) for _ in range(rng.choice([0, 1, 2, 5, mx]))]
+
+        def acts():
+            r = rng.random()
+            if r < 0.25:
+                return "-"
+            if r < 0.55:
+                return "r" + (hx(payload()) if rng.random() < 0.8 else rng.choice(["null", "-"]))
+            if r < 0.65:
+                return "r" + hx(payload()) + ",r" + hx(payload())
+            if r < 0.85:
+                return "d"
+            if r < 0.9:
+                return "d,r41"
+            if r < 0.95:
+                return "d,d"
+            n = rng.choice([250, 254, 255, 256, 257, 300, 600]) if big else 40
+            return "r" + hx([rng.randrange(256) for _ in range(n)])
+
+        n = rng.choice([2, 3, 4, 6, 8, 12]) if not big else rng.randrange(12, 40)
+        for _ in range(n):
+            r = rng.random()
+            if closed:
+                if nh and r < 0.7:
+                    ops += ["hr", str(rng.randrange(nh)), rng.choice(["null", "41", hx(payload())])]
+                elif r < 0.8:
+                    ops += [rng.choice(["sy", "dp0", "pe"])]
+                continue
+            if r < 0.30:
+                # incoming message
+                k = rng.random()
+                if il == 0:
+                    m = payload() or [0x41]
+                elif k < 0.45:
+                    v = rng.choice([1, 2, 0x7f, 0x100, rng.randrange(1, 2 ** (8 * il - 1))]) % 2 ** (8 * il - 1) or 1
+                    m = idbytes(v) + payload()
+                elif k < 0.55:
+                    m = [0] * il + payload()
+                elif k < 0.85:
+                    # answer: to an awaited id, to an unknown one, or with an unusable id
+                    if out_ids and rng.random() < 0.75:
+                        v = rng.choice(out_ids)
+                    else:
+                        v = rng.choice([0, 1, 5, maxid, rng.randrange(0, 2 ** min(8 * il - 1, 62))])
+                    m = idbytes(v % 2 ** (8 * il - 1))
+                    m[0] |= 0x80
+                    if il >= 9 and rng.random() < 0.3:
+                        m = [0x81] + [rng.randrange(1, 256) for _ in range(il - 1)]
+                    m += payload()
+                else:
+                    m = [rng.randrange(256) for _ in range(rng.randrange(0, il))] if il > 1 else [0x41] * il
+                    if not m:
+                        m = [0x80]
+                    if dg and rng.random() < 0.5:
+                        m = m[:max(0, il - 1)]
+                if not dg and not m:
+                    m = [0x41]
+                ops += ["tx", hx(m)]
+                pending += 1
+            elif r < 0.55:
+                if active and not dg and rng.random() < 0.8:
+                    continue        # stream: dispatching while composing leaves undecoded input, rarely
+                if rng.random() < 0.08:
+                    ops += ["dp0"]
+                else:
+                    ops += ["dp", acts(), str(rng.choice([0, 0, 0, 1, 5, -1, -3, 300, -129]))]
+                if not active:
+                    if pending:
+                        recvd = True
+                    pending = max(0, pending - 1)
+            elif r < 0.72:
+                if dg and recvd:
+                    continue
+                if active:
+                    ops += ["pe"]
+                    active = False
+                    continue
+                pay = payload() or ([0x51] if il == 0 else [])
+                if rng.random() < 0.75:
+                    ops += ["aw", hx(pay)]
+                else:
+                    ops += ["ps", hx(pay or [0x51])]
+                    active = True
+                if il:
+                    out_ids.append(nxt)
+                    nxt += 1
+            elif r < 0.82:
+                ops += ["sy"]
+                if not active and pending:
+                    recvd = True
+            elif r < 0.93:
+                if nh or rng.random() < 0.3:
+                    ops += ["hr", str(rng.randrange(nh + 1)), rng.choice(["null", "-", hx(payload())])]
+            elif r < 0.97:
+                ops += ["cl"]
+                closed = True
+            nh = sum(1 for i in range(len(ops)) if ops[i] == "dp" and "d" in ops[i + 1].split(","))
+        return " ".join(["con", "d" if dg else "s", str(il)] + ops)
+
+    def gen_con_fixed(self):
+        """hand-written connection histories (one per behaviour the random generator reaches rarely)"""
+        cs = []
+        for m in "sd":
+            cs += ["con %s 2 tx 00014142 dp r6f6b 0" % m,
+                   "con %s 2 tx 00014142 dp - -3" % m,
+                   "con %s 2 tx 00014142 dp r6f6b,r6f6c 0" % m,
+                   "con %s 2 tx 00014142 dp d 0 hr 0 4243 hr 0 4243" % m,
+                   "con %s 2 tx 00014142 dp0" % m,
+                   "con %s 1 tx 00 tx 0141 tx 8141 dp0 dp0 dp0" % m,
+                   "con %s 2 tx 00014142 dp d 0 tx 00024344 dp d 0 hr 1 61 hr 0 62" % m,
+                   "con %s 2 tx 00014142 dp d 0 cl hr 0 4243" % m,
+                   "con %s 2 tx 00014142 dp d,d 0 cl" % m,
+                   "con %s 2 aw 5152 tx 80017172 dp - 0 tx 80017173 dp - 0" % m,
+                   "con %s 2 aw 51 aw 52 tx 80027172 tx 80017173 tx 00034142 sy sy dp r61 0" % m,
+                   "con %s 2 aw 51 aw 52 tx 80057171 tx 80017171 sy" % m,
+                   "con %s 2 aw 51 tx 80 sy dp - 0" % m,
+                   "con %s 9 tx 810000000000000005 dp - 0" % m,
+                   "con %s 9 aw 51 tx 810203040506070809 sy dp - 0" % m,
+                   "con %s 9 tx 010000000000000005 dp r61 0" % m,
+                   "con %s 2 ps 5152 tx 00014142 dp r61 0 pe dp r62 0" % m,
+                   "con %s 2 ps 5152 cl" % m,
+                   "con %s 2 aw 5152 cl hr 0 null" % m,
+                   "con %s 0 aw 5152 tx 4142 dp r61 0 sy" % m,
+                   "con %s 2 tx 00014142 dp r%s 0" % (m, "41" * 254),
+                   "con %s 2 tx 00014142 dp r%s 0" % (m, "41" * 255),
+                   "con %s 2 tx 00014142 dp r%s 0" % (m, "41" * 700),
+                   "con %s 2 tx 00014142 dp d 0 hr 0 %s" % (m, "42" * 300),
+                   "con %s 2 dp - 0 sy" % m]
+        cs += ["con s 2 aw 51 aw 52 aw 53 tx 80027172 dp - 0 aw 54 aw 55",
+               "con s 2 tx 00014142 dp d 0 ps 51 hr 0 61 pe hr 0 62",
+               "con s 2 tx 00014142 dp d 0 ps 51 hr 0 null pe",
+               "con s 2 aw 51 aw 52 tx 80017171 sy sy",
+               "con s 2 aw 51 tx 80017171 sy sy",
+               # id space of a one-byte header: 127 requests, all answered, and the ids are handed out again
+               "con s 1 " + " ".join("aw 51 tx %02x61 dp - 0" % (0x80 | ((i % 127) + 1)) for i in range(130)),
+               "con s 1 " + " ".join("aw 51" for i in range(129)) + " tx 8161 sy aw 52"]
+        return cs
+
     def gen_sin(self, rng):
         il = rng.choice([0, 1, 2, 2, 3, 4, 8, 9])
         wr = 0 if rng.random() < 0.1 else 1
@@ -405,6 +754,11 @@ class C12(DiffProperty):
         nh = 2500 if tier == "quick" else 80000
         for i in range(nh):
             cases.append(self.gen_history(rng, big=(i % 40 == 0)))
+        con = self.gen_con_fixed()
+        for i in range(3000 if tier == "quick" else 60000):
+            con.append(self.gen_con(rng, big=(i % 25 == 0)))
+        # cases that depend on a patch which is not committed in /repo stay out (see COMMITTED)
+        cases += [c for c in con if con_enabled(c)]
         # creation refused
         cases.append("ctx 65536 1 1 - arm 01 reply null unref")
         cases.append("ctx 65535 1 1 - arm 01 reply null unref")
